@@ -15,25 +15,25 @@ CHECKS = {
             "deterministic simulation; wire-trace invariant monitor (credit ledger, chunk size)"),
     "C04": ("exploration", "§4 C04", "base channels between two real endpoints; items straddling max_data_size (streamed through lock-step helper threads), chunk_size and max_item_size, items failing to (de)serialize, cancelled sends, link cut sub-batch; oracle = receive events must be explainable by the per-sender attempt log (deliver / receiver-must-fail / sender-failed), complete at quiescence",
             "deterministic simulation + fault injection; sequence-matching oracle against the sender's attempt log"),
-    "C05": ("exploration", "§4 C05", "2-4 endpoints, 0-8 channels whose halves (mpsc, oneshot, watch, broadcast, bin, lr) are tagged with their channel label, embedded in nested values (Vec/Option/Pair/Map/Enum, padded past max_data_size) and sent 1-3 hops over base, mpsc and forwarded-bin carriers, also while items are queued; scarce max_ports and link-cut sub-batches; oracle = every sink sees only its own channel's values in order (bijection), with ample ports nothing is refused or lost, both ends observe an error for a half that could not be connected, nobody pending at quiescence, second lr half refused",
+    "C05": ("exploration", "§4 C05", "2-4 endpoints, 0-8 channels whose halves (mpsc, oneshot, watch, broadcast, bin, lr) are tagged with their channel label, embedded in nested values (Vec/Option/Pair/Map/Enum, padded past max_data_size) and sent 1-3 hops over base, mpsc and forwarded-bin carriers, also while items are queued; scarce max_ports and link-cut sub-batches; oracle = every sink sees only its own channel's values in order (bijection), with ample ports nothing is refused or lost, both ends observe an error for a half that could not be connected, nobody pending at quiescence, second lr half refused; extra scenario: a half that came back from a failed send (max item size, serialisation error in a later field, ports exhausted) is sent again, or its opposite half instead, and must still be wired one-to-one",
             "deterministic simulation + fault injection; label-bijection oracle over all delivered halves"),
     "C06": ("fault_enumeration", "§4 C06", "two fixed mixed chmux workloads (handshake, port opens, chunked transfers both ways, port batch, pending connect/accept/closed()/recv, idle tail with pings); every frame index x direction x fault kind (sink error, stream error, EOF, silent stall both ways, one-directional stall) is executed under N seeded schedules; oracle = both dispatchers end with Err by timeout+eps, every outstanding and fresh operation errors in bounded virtual time, no orderly end-of-stream is reported, received is a prefix of sent; points beyond the traffic exercise the idle-survival clause (hours of virtual idle time, then a transfer)",
             "deterministic simulation; exhaustive enumeration of transport cut points x fault kinds, seeded schedules per point"),
     "C07": ("exploration", "§4 C07", "two real chmux endpoints run 1-20 open/transfer/close cycles: ports opened through default connect vs accept (either cancelled part-way), connect_ext wait/no-wait vs inspect + accept/accept_from/reject/drop/hold, pending Connects dropped before/after sent/answer, port batches over open ports, client clones, spare port numbers; all handles are dropped in a drawn permutation with drawn pauses, in the last cycle together with clients and listeners of both sides; tiny port-number space so numbers are reused at once; oracle = both dispatchers return Ok at quiescence with the transport still open, wire port-lifetime model (no number reused before all four finish messages, open+requested ports <= max_ports, nothing sent for a finished port), allocator capacity at every quiescent point == max_ports - ports the wire model says are open or requested (released once finished and not before), live-task count back to its pre-cycle / pre-connection value",
             "deterministic simulation + fault injection (cancellation, drop orders); wire-trace port-lifetime model + allocator-capacity and live-task conservation oracles at quiescence"),
-    "C08": ("exploration", "§4 C08", "one real endpoint (listener actor drawing accept/reject/drop/hold, client actor, one actor per port: consuming / stalled / receiver dropped / both dropped, cancellable sends) against a scripted peer built on the reference codec: drawn Hello (version 2/3/4/255, chunk size and receive buffer 4..u32::MAX, connect queue 1..65535), 4-40 steps mixing valid traffic (opens, complete messages within credit and chunk size, answers, credit returns, finish/close) with 16 kinds of hostile frames (garbage, mutated and replayed frames, Data without payload, Data for unknown/freed/connecting/finished ports, chunk and credit overruns, huge / overflowing / bogus credits, unsolicited and duplicate answers, duplicate requests and request floods, port-batch bombs with duplicates, duplicate finishes, second Hello, Reset, ClientFinish/ListenerFinish, Goodbye followed by traffic, odd-but-legal frames); oracle = no panic (process panic hook, overflow checks on); while the endpoint stays up: cost delivered minus cost consumed per port <= advertised receive buffer (+ one partly assembled message for a consuming receiver), no chunk above the advertised size accepted, unanswered requests within the connect queues, no frame tolerated after which a correct endpoint must terminate; disjunction at quiescence: dispatcher ended => every local user (port actors, listener, pending and fresh connects) observed an error, nobody hangs, no orderly end-of-stream the peer never announced; else messages sent validly before a port was touched arrive intact in order and a fresh connect+echo exchange succeeds unless legitimately refused",
+    "C08": ("exploration", "§4 C08", "one real endpoint (listener actor drawing accept/reject/drop/hold, client actor, one actor per port: consuming / stalled / receiver dropped / both dropped, cancellable sends) against a scripted peer built on the reference codec: drawn Hello (version 2/3/4/255, chunk size and receive buffer 4..u32::MAX, connect queue 1..65535), 4-40 steps mixing valid traffic (opens, complete messages within credit and chunk size, answers, credit returns, finish/close) with 17 kinds of hostile frames (garbage, mutated and replayed frames, Data without payload, Data for unknown/freed/connecting/finished ports, chunk and credit overruns, huge / overflowing / bogus credits, unsolicited and duplicate answers, duplicate requests and request floods, port-batch bombs with duplicates, port batches that are never finished, duplicate finishes, second Hello, Reset, ClientFinish/ListenerFinish, Goodbye followed by traffic, odd-but-legal frames), plus a hostile byte stream against Connect::io at three stages (oversize length prefix, frame or length prefix cut short by EOF, zero-length and garbage frames, clean EOF); oracle = no panic (process panic hook, overflow checks on); while the endpoint stays up: cost delivered minus cost consumed per port <= advertised receive buffer (+ one partly assembled message for a consuming receiver), no chunk above the advertised size accepted, unanswered requests within the connect queues, no frame tolerated after which a correct endpoint must terminate; disjunction at quiescence: dispatcher ended => every local user (port actors, listener, pending and fresh connects) observed an error, nobody hangs, no orderly end-of-stream the peer never announced; else messages sent validly before a port was touched arrive intact in order and a fresh connect+echo exchange succeeds unless legitimately refused",
             "deterministic simulation with a scripted hostile peer (grammar-generated valid prefix + mutation/injection/duplication/overrun faults); no-panic, bounded-memory and fail-or-still-works oracles against the peer's own reference model"),
     "C09": ("exploration", "§4 C09", "(i) every frame a real endpoint emits in real-real workloads is strictly decoded and canonically re-encoded by an independent reference codec frozen from the v3 layout; (ii) coverage driver + completeness self-test: every message kind and flag combination must be observed; (iii) real endpoint against the scripted reference peer speaking v3 and v2 with boundary Hello values, junk before Hello, id-less OpenPort/PortData, credit and chunk discipline, label echo over ports opened in both directions; (iv) Connect::io through an independent length-prefix parser that re-chunks the byte stream",
             "deterministic simulation; reference-codec differential oracle + scripted reference peer (refinement of the frozen layout)"),
     "C10": ("exploration", "§4 C10", "1-3 client actors issue default connect(), connect_ext(wait/no-wait, PortReq ids), cancelled connects and Connect::sent()+marker message; a listener actor draws accept / inspect+accept / accept_from / reject / reject(no_ports) / drop per request, with cancelled accepts; max_ports 2-8, connect_queue 1-4, every Cfg::ports_exhausted policy; oracle = no request pending at quiescence, client outcome equals the listener's recorded decision per request id, accepted pairs echo their own label on both legs, a request reported as sent is obtainable from the listener before later data arrives, unanswered OpenPort frames never exceed the advertised connect queue (wire monitor), exhaustion policy clause",
             "deterministic simulation + fault injection (cancellation); decision-log oracle + wire monitor"),
-    "C11": ("fault_enumeration", "§4 C11", "position enumeration: channel type (raw port, base, remote mpsc with 1-3 senders) x event (all senders dropped, receiver close, receiver drop) x position 0..6 in a stream of 6 messages x inside/outside a message, each under N seeded schedules; oracle = received == completed sends (close / sender drop) or prefix (receiver drop), end-of-stream only after everything, error classification (Closed gracefully / not gracefully, mpsc closed_reason Closed/Dropped), Sending handles acknowledged exactly the received values",
+    "C11": ("fault_enumeration", "§4 C11", "position enumeration: channel type (raw port, base, remote mpsc with 1-3 senders) x event (all senders dropped, receiver close, receiver drop) x position 0..6 in a stream of 6 messages x inside/outside a message, each under N seeded schedules; oracle = received == completed sends (close / sender drop) or prefix (receiver drop), end-of-stream only after everything, error classification (Closed gracefully / not gracefully, mpsc closed_reason Closed/Dropped), Sending handles acknowledged exactly the received values, and of the values still queued when the sender learned of the close (closed() resolved) at most one is transmitted afterwards",
             "deterministic simulation; exhaustive enumeration of event positions, seeded schedules, reference = completed sends"),
-    "C12": ("exploration", "§4 C12", "served counter/register object under every server flavour (Server, ServerRefMut, ServerShared(Mut) spawn on/off, ReqReceiver, by-value) and RFn/RFnMut/RFnOnce; 1-4 clients (clones, remote, two links), <= 14 calls with unique ids; oracle = exactly-one outcome per call checked against the callee's execution log (no foreign/duplicate/wrong-argument execution, Ok(r) => one completed execution with result r, error => at most one), &mut executions never overlap, Wing-Gong linearizability search of the client history against a sequential counter; link-cut sub-batch; self-test with a deliberately non-atomic served object",
+    "C12": ("exploration", "§4 C12", "served counter/register object under every server flavour (Server, ServerRefMut, ServerShared(Mut) spawn on/off, ReqReceiver, by-value) and RFn/RFnMut/RFnOnce; 1-4 clients (clones, remote, two links), <= 14 calls with unique ids, including a default-bodied trait method that the served object overrides (must arrive as one request); oracle = exactly-one outcome per call checked against the callee's execution log (no foreign/duplicate/wrong-argument execution, Ok(r) => one completed execution with result r, error => at most one), &mut executions never overlap, Wing-Gong linearizability search of the client history against a sequential counter; link-cut sub-batch; self-test with a deliberately non-atomic served object",
             "deterministic simulation + fault injection; execution-log oracle and linearizability checker over invoke/return histories"),
     "C13": ("exploration", "§4 C13", "each observable collection (vec, deque, hash map, hash set, list): random initial content, 3-40 steps over the full mutating API incl. no-ops, entry/iterator/reference mutation, retain, resize, swap-remove, done; subscriptions (snapshot and incremental) at any step; mirrors local, 1-2 hops remote, re-subscribed from a mirror, and hand-consumed event streams; oracle = at every quiescence mirror == hand-replayed stream == observable == std reference model, is_done iff done(), is_complete eventually, exact event counts",
             "deterministic simulation; reference-model oracle (std collection) compared at quiescence, seeded op sequences and schedules"),
-    "C14": ("exploration", "§4 C14", "fast mutator with event buffers 1-3, slow/remote/cut-off mirrors and raw subscriptions, collection dropped before done, small mirror max_size, several subscribers, lists with back-pressure; oracle = every Ok view equals some historic state S_j (monotone per mirror), errors are sticky and explained (Lagged only after overflow, Closed only after drop-before-done, MaxSizeExceeded only above the limit, Remote* only after a link fault), list subscribers receive every element exactly once in order",
+    "C14": ("exploration", "§4 C14", "fast mutator with event buffers 1-3, slow/remote/cut-off mirrors and raw subscriptions, collection dropped before done, small mirror max_size, several subscribers, subscribers joining a mirror at any time (also while another reader holds a view of it and events are pending), lists with back-pressure; oracle = every Ok view equals some historic state S_j (monotone per mirror), errors are sticky and explained (Lagged only after overflow, Closed only after drop-before-done, MaxSizeExceeded only above the limit, Remote* only after a link fault), list subscribers receive every element exactly once in order",
             "deterministic simulation + fault injection; history oracle (views must be historic states, errors must be explained)"),
     "C15": ("exploration", "§4 C15", "watch channels over chains of 2-4 endpoints; <= 20 strictly increasing values; receivers cloned/subscribed/sent onward 1-3 hops while updates are in flight, sender half moved and used remotely, sender dropped right after a send; oracle = observed values were sent and never decrease per receiver lineage, at quiescence every live receiver on a healthy path shows the last value sent, closure reported only after that value was visible",
             "deterministic simulation + fault injection; monotonicity and convergence-at-quiescence oracle"),
